@@ -63,10 +63,7 @@ func checkDiags(c *hx.Case, what string, diags hcl.Diagnostics, srcLen int, star
 func diagsDump(diags hcl.Diagnostics) string {
 	var sb strings.Builder
 	for _, d := range diags {
-		detail := d.Detail
-		if i := strings.Index(detail, "panic in function implementation"); i >= 0 {
-			detail = detail[:i]
-		}
+		detail := stableDetail(d.Detail)
 		fmt.Fprintf(&sb, "%d|%s|%s|", d.Severity, d.Summary, detail)
 		if d.Subject != nil {
 			fmt.Fprintf(&sb, "%v", *d.Subject)
